@@ -4,6 +4,7 @@ import (
 	"go/constant"
 	"go/token"
 	"go/types"
+	"sort"
 	"strings"
 
 	"golang.org/x/tools/go/ssa"
@@ -958,4 +959,136 @@ func MustPrecedeLA(fn *ssa.Function, target ssa.Instruction, cuts []ssa.Instruct
 		}
 	}
 	return true, explored
+}
+
+// ---------------------------------------------------------------------------------
+// natural loops
+
+// NaturalLoop returns the blocks of the natural loop with header h (h included): all
+// blocks that reach a back edge p→h (h dominates p) without passing through h.
+func NaturalLoop(h *ssa.BasicBlock) map[*ssa.BasicBlock]bool {
+	loop := map[*ssa.BasicBlock]bool{h: true}
+	var work []*ssa.BasicBlock
+	for _, p := range h.Preds {
+		if h.Dominates(p) {
+			work = append(work, p)
+		}
+	}
+	for len(work) > 0 {
+		b := work[len(work)-1]
+		work = work[:len(work)-1]
+		if loop[b] {
+			continue
+		}
+		loop[b] = true
+		work = append(work, b.Preds...)
+	}
+	return loop
+}
+
+// RangeLoopHeaders returns the headers of `for … range s` loops over a slice for which
+// match(s) holds (s is the operand of the len() the loop header compares with).
+func RangeLoopHeaders(fn *ssa.Function, match func(s ssa.Value) bool) []*ssa.BasicBlock {
+	var out []*ssa.BasicBlock
+	for _, h := range fn.Blocks {
+		if h.Comment != "rangeindex.loop" || len(h.Succs) != 2 || len(h.Instrs) == 0 {
+			continue
+		}
+		ifi, ok := h.Instrs[len(h.Instrs)-1].(*ssa.If)
+		if !ok {
+			continue
+		}
+		bo, ok := ifi.Cond.(*ssa.BinOp)
+		if !ok || bo.Op != token.LSS {
+			continue
+		}
+		lenCall, ok := bo.Y.(*ssa.Call)
+		if !ok {
+			continue
+		}
+		bi, ok := lenCall.Call.Value.(*ssa.Builtin)
+		if !ok || bi.Name() != "len" {
+			continue
+		}
+		if match(lenCall.Call.Args[0]) {
+			out = append(out, h)
+		}
+	}
+	return out
+}
+
+// LoopEarlyExits lists the edges that leave the natural loop of h from a block other
+// than h itself (break, return, goto out of the loop).  Edges into blocks that end in a
+// panic are not counted.
+func LoopEarlyExits(h *ssa.BasicBlock) [][2]*ssa.BasicBlock {
+	loop := NaturalLoop(h)
+	var out [][2]*ssa.BasicBlock
+	for b := range loop {
+		if b == h {
+			continue
+		}
+		for _, s := range b.Succs {
+			if loop[s] {
+				continue
+			}
+			if len(s.Instrs) > 0 {
+				if _, isPanic := s.Instrs[len(s.Instrs)-1].(*ssa.Panic); isPanic {
+					continue
+				}
+			}
+			out = append(out, [2]*ssa.BasicBlock{b, s})
+		}
+		if len(b.Succs) == 0 && len(b.Instrs) > 0 {
+			if _, isRet := b.Instrs[len(b.Instrs)-1].(*ssa.Return); isRet {
+				out = append(out, [2]*ssa.BasicBlock{b, nil})
+			}
+		}
+	}
+	sort.Slice(out, func(i, j int) bool { return out[i][0].Index < out[j][0].Index })
+	return out
+}
+
+// ---------------------------------------------------------------------------------
+// affine forms
+
+// Affine is c + Σ coeff[atom]·atom over SSA values (integer arithmetic, wrap-around ignored).
+type Affine struct {
+	K     int64
+	Terms map[ssa.Value]int64
+}
+
+// AffineOf normalises v through ADD, SUB, constants and integer conversions; every
+// other value, and every value listed in atoms, is an atom.
+func AffineOf(v ssa.Value, atoms ...ssa.Value) Affine {
+	a := Affine{Terms: map[ssa.Value]int64{}}
+	isAtom := map[ssa.Value]bool{}
+	for _, x := range atoms {
+		isAtom[x] = true
+	}
+	var add func(v ssa.Value, sign int64, depth int)
+	add = func(v ssa.Value, sign int64, depth int) {
+		v = Unwrap(v)
+		if k, ok := ConstInt(v); ok {
+			a.K += sign * k
+			return
+		}
+		if bo, ok := v.(*ssa.BinOp); ok && depth < 16 && !isAtom[v] {
+			switch bo.Op {
+			case token.ADD:
+				add(bo.X, sign, depth+1)
+				add(bo.Y, sign, depth+1)
+				return
+			case token.SUB:
+				add(bo.X, sign, depth+1)
+				add(bo.Y, -sign, depth+1)
+				return
+			}
+		}
+		a.Terms[v] += sign
+		if a.Terms[v] == 0 {
+			delete(a.Terms, v)
+		}
+	}
+	add(v, 1, 0)
+	return a
 }
